@@ -11,7 +11,8 @@ import sys
 from mpmath import mp, mpf, sqrt, floor, log, exp, pi
 mp.dps = 50
 
-CASES = [(1000, 500, 500), (10000, 5000, 300), (40, 20, 20), (10000, 7000, 9000), (1 << 40, 1 << 39, 1000), (1000, 501, 500), (50000, 49900, 5300), (3000, 2700, 2880)]
+# the last two: (k+1)(n1+1)/(N+2) lies just below an integer (14.75, 25.75), so that a mode computed with a neighbouring denominator differs
+CASES = [(1000, 500, 500), (10000, 5000, 300), (40, 20, 20), (10000, 7000, 9000), (1 << 40, 1 << 39, 1000), (1000, 501, 500), (50000, 49900, 5300), (3000, 2700, 2880), (59, 29, 29), (103, 51, 51)]
 
 
 def l14(v):
@@ -122,7 +123,7 @@ def build_rows():
 def main(out):
     global CASES, MAXA
     rows_quick = build_rows()
-    CASES = CASES + [(2000, 1000, 400), (100000, 30000, 20000), (500, 250, 250), (20000, 19000, 15000), (1 << 30, 1 << 29, 5000), (300, 150, 100)]
+    CASES = CASES + [(43, 21, 21), (2000, 1000, 400), (100000, 30000, 20000), (500, 250, 250), (20000, 19000, 15000), (1 << 30, 1 << 29, 5000), (300, 150, 100)]
     MAXA = 40
     rows_thorough = build_rows()
     text = '''----------------------------- MODULE H2peTable -----------------------------
